@@ -810,5 +810,104 @@ theorem three_rounds_quiescent (s : State) (hn : (s.clients.map (·.id)).Nodup) 
   obtain ⟨n2, c1, c2, c3, _⟩ := r1 (round s) n1
   exact r3 _ n2 c1 c2 c3 (r2 _ n1 b5)
 
+/-! ## a round is a schedule of the model's own actions; the drain of an epoch is reached, not assumed -/
+
+def QuietA (s t : State) : Prop := ∃ as : List Act, (∀ a ∈ as, isPublish a = false ∧ (∀ j, a ≠ .snapshotH j)) ∧ t = run true false s as
+
+theorem quietA_refl (s : State) : QuietA s s := ⟨[], fun _ h => by simp at h, rfl⟩
+
+theorem quietA_trans {a b c : State} (h1 : QuietA a b) (h2 : QuietA b c) : QuietA a c := by
+  obtain ⟨l1, w1, e1⟩ := h1
+  obtain ⟨l2, w2, e2⟩ := h2
+  refine ⟨l1 ++ l2, ?_, ?_⟩
+  · intro x hx
+    rcases List.mem_append.mp hx with h | h
+    · exact w1 x h
+    · exact w2 x h
+  · rw [e2, e1]; simp [run, List.foldl_append]
+
+theorem quietA_step (s : State) (a : Act) (h : isPublish a = false ∧ ∀ j, a ≠ .snapshotH j) : QuietA s (step true false s a) :=
+  ⟨[a], fun x hx => by simp only [List.mem_singleton] at hx; rw [hx]; exact h, rfl⟩
+
+theorem quietA_iter (a : Act) (h : isPublish a = false ∧ ∀ j, a ≠ .snapshotH j) (n : Nat) (s : State) :
+    QuietA s (iter (fun t => step true false t a) n s) := by
+  induction n generalizing s with
+  | zero => exact quietA_refl s
+  | succ n ih => exact quietA_trans (quietA_step s a h) (ih _)
+
+theorem quietA_foldl {β : Type} (g : State → β → State) (hg : ∀ t b, QuietA t (g t b)) (l : List β) (s : State) :
+    QuietA s (l.foldl g s) := by
+  induction l generalizing s with
+  | nil => exact quietA_refl s
+  | cons b l ih => exact quietA_trans (hg s b) (ih _)
+
+theorem quietA_round (s : State) : QuietA s (round s) := by
+  unfold round
+  refine quietA_trans ?_ (quietA_foldl _ (fun t i => ?_) _ _)
+  · unfold hostPhase hp3 hp2 hp1
+    exact quietA_trans (quietA_trans (quietA_trans (quietA_iter _ ⟨rfl, fun _ h => by cases h⟩ _ _)
+      (quietA_foldl _ (fun t i => by unfold pollI; exact quietA_iter _ ⟨rfl, fun _ h => by cases h⟩ _ _) _ _))
+      (quietA_iter _ ⟨rfl, fun _ h => by cases h⟩ _ _)) (quietA_step _ _ ⟨rfl, fun _ h => by cases h⟩)
+  · unfold clientPhase cp3 cp2 cp1
+    exact quietA_trans (quietA_trans (quietA_trans (quietA_iter _ ⟨rfl, fun _ h => by cases h⟩ _ _)
+      (quietA_iter _ ⟨rfl, fun _ h => by cases h⟩ _ _)) (quietA_iter _ ⟨rfl, fun _ h => by cases h⟩ _ _))
+      (quietA_step _ _ ⟨rfl, fun _ h => by cases h⟩)
+
+/-- from any state a schedule without publications and without joins reaches quiescence -/
+theorem quiescence_reached (s : State) (hn : (s.clients.map (·.id)).Nodup) :
+    ∃ as : List Act, (∀ a ∈ as, isPublish a = false ∧ ∀ j, a ≠ .snapshotH j) ∧ Quiescent (run true false s as) := by
+  obtain ⟨as, hw, he⟩ := quietA_trans (quietA_trans (quietA_round s) (quietA_round _)) (quietA_round _)
+  exact ⟨as, hw, he ▸ three_rounds_quiescent s hn⟩
+
+theorem hostWrites_of_quietA (a : Act) (h : isPublish a = false) : HostWrites a := by
+  cases a <;> simp_all [HostWrites, isPublish]
+
+theorem clientWrites_of_quietA (w : Nat) (a : Act) (h : isPublish a = false ∧ ∀ j, a ≠ .snapshotH j) : ClientWrites w a := by
+  obtain ⟨h1, h2⟩ := h
+  cases a <;> simp_all [ClientWrites, isPublish]
+
+theorem last_quietA (w : Nat) (y : Option Nat) (more : List Act) (hm : ∀ a ∈ more, isPublish a = false) :
+    more.foldl (pubOf w) y = y := by
+  induction more generalizing y with
+  | nil => rfl
+  | cons a more ih =>
+    have ha : pubOf w y a = y := by
+      have := hm a (by simp)
+      cases a <;> simp_all [pubOf, isPublish]
+    simp only [List.foldl_cons, ha]
+    exact ih y (fun b hb => hm b (by simp [hb]))
+
+/-- **C06, download classes, one epoch, without assuming the drain**: after the publications of one writer, under any
+schedule of reactions, receptions, downloads and applications, there is a continuation without publications (three fair
+rounds) after which every peer holds the last publication and nothing is pending. -/
+theorem epoch_total (x : Option Nat) (s : State) (e : Epoch) (hn : (s.clients.map (·.id)).Nodup)
+    (hs : Settled x s) (hd : e.disciplined) (hp : e.writer = 0 ∨ ∃ c ∈ s.clients, c.id = e.writer) :
+    ∃ more : List Act, (∀ a ∈ more, isPublish a = false) ∧ Settled e.last (run true false (e.run s) more) := by
+  have hn' : ((e.run s).clients.map (·.id)).Nodup := by
+    unfold Epoch.run; rw [ids_run, ids_step]; exact hn
+  obtain ⟨more, hw, hq⟩ := quiescence_reached (e.run s) hn'
+  refine ⟨more, fun a ha => (hw a ha).1, ?_⟩
+  have hrun : run true false (e.run s) more = Epoch.run s { e with acts := e.acts ++ more } := by
+    simp [Epoch.run, run, List.foldl_append, firstAct]
+  have hlast : Epoch.last { e with acts := e.acts ++ more } = e.last := by
+    unfold Epoch.last
+    simp only [List.foldl_append]
+    exact last_quietA e.writer _ more (fun a ha => (hw a ha).1)
+  rw [hrun] at hq ⊢
+  rw [← hlast]
+  refine epoch_converges x s { e with acts := e.acts ++ more } hn hs ?_ hp hq
+  unfold Epoch.disciplined at hd ⊢
+  by_cases hw0 : e.writer = 0
+  · simp only [hw0, if_true] at hd ⊢
+    intro a ha
+    rcases List.mem_append.mp ha with h | h
+    · exact hd a h
+    · exact hostWrites_of_quietA a (hw a h).1
+  · simp only [hw0, if_false] at hd ⊢
+    intro a ha
+    rcases List.mem_append.mp ha with h | h
+    · exact hd a h
+    · exact clientWrites_of_quietA e.writer a (hw a h)
+
 end Asset
 end BevySync
